@@ -781,7 +781,7 @@ extern const BaseAddSub baseAddSub[4];
 extern const BaseAdr baseAdr[2];
 extern const BaseAtDcIcTlbi baseAtDcIcTlbi[4];
 extern const BaseAtomicCasp baseAtomicCasp[4];
-extern const BaseAtomicOp baseAtomicOp[123];
+extern const BaseAtomicOp baseAtomicOp[120];
 extern const BaseAtomicSt baseAtomicSt[48];
 extern const BaseBfc baseBfc[1];
 extern const BaseBfi baseBfi[3];
@@ -818,7 +818,7 @@ extern const BaseRRII baseRRII[2];
 extern const BaseRRR baseRRR[26];
 extern const BaseRRRR baseRRRR[6];
 extern const BaseShift baseShift[8];
-extern const BaseStx baseStx[3];
+extern const BaseStx baseStx[6];
 extern const BaseStxp baseStxp[2];
 extern const BaseTst baseTst[1];
 extern const FSimdPair fSimdPair[5];
